@@ -5,4 +5,6 @@ import "verif/lib/vk"
 // buildEntries registers the entry points in priority order.
 func buildEntries(c *vk.Ctx) {
 	registerACL(c)
+	registerCrypto(c)
+	registerTree(c)
 }
